@@ -35,6 +35,11 @@ CLAIMED = {
         "Static: for every class (tonic = 7 letters x arbitrary accidentals for interval-built scales, every row of the constant key table for key-built ones) ascending() is period * n + [tonic] for a symbolic n with the period equal to the defining step pattern on consecutive letters (heptatonic), descending() is the exact reverse or the documented melodic-minor / minor-Neapolitan form; degree(k, 'a'|'d') selects index k-1 of the right list for symbolic k and rejects k<1 / unknown directions; determine tests exactly the ascending and descending sets of the 7 major/minor-family classes over the 15 key pairs and appends the matching scale's name.",
         "Not decided: tonics outside the key table for key-built scales; recognition on enharmonic respellings. Trusted: CPython ast, abstract evaluator (variants/c05.py), PATTERNS oracle, C01/C02/C04 summaries.",
         "DESIGN.md section 2, C05"),
+    "C07": (
+        "offset-domain abstract interpretation of chords.determine on every constructible shorthand x root letter x rotation x output form, with parsing of the abstract answers; AST rules for emitted-name closure, ordinal domain, triad decision-table soundness and trivial sizes",
+        "Static: for every constructible chord (root = letter x arbitrary accidentals, chord tones = root + constant) in every rotation the shorthand answer contains a name on the root whose formula equals the chord's, the long answer at the same position is root + meaning + the right inversion ordinal, both forms have equal length, neither raises, and every answered name (incl. polychord halves) is a constructible shorthand; every name constant a recogniser can emit is a key of both tables; int_desc covers 1..6; each row of the triad table names a chord containing the three notes; 0/1/2 notes give the documented answers.",
+        "Quick tier uses 3 (triads/sevenths) or 2 (5-6 note chords) root letters with arbitrary accidentals, thorough all 7. Not decided: soundness of answers for arbitrary non-constructible 4-7 note inputs. Trusted: CPython ast, abstract evaluator (variants/c07.py), C02/C03/C06 summaries and oracles.",
+        "DESIGN.md section 2, C07"),
     "C06": (
         "offset-domain abstract interpretation of every chord builder (interval constructors summarised by their C02 post-condition) against a meaning-keyed chord-theory oracle; table agreement; abstract evaluation of the shorthand parser on root shapes x keys, aliases, slash, polychord, NC, list and malformed classes",
         "Static: each of the shorthand builders (incl. the lambda) yields, for 7 root letters x arbitrary accidentals, exactly the (letter, semitone) list its meaning prescribes; chord_shorthand and chord_shorthand_meaning have equal key sets; from_shorthand maps every key, every min/mi/-/maj/ma alias spelling, slash basses, polychords, NC and list input to the right builder result and rejects unknown suffixes / bad roots / bad basses with the documented errors.",
